@@ -35,10 +35,68 @@ let do_norm args =
        String.concat " " (List.map (fun a -> string_of_int (int_of_nat a)) al))
   | _ -> "badcase"
 
+
+(* ---- bit stream programs (C14, C06, C08) ----
+   case:  bs <wbuf> <rbuf> <sched: a,b,c or -> <wfail: k or 0> <rfail: k or 0> ; op ; op ; ...
+   ops :  wb <bit> | ws <value> <count> | wa <count> <hex> | wc (close) |
+          rb | rs <count> | ra <count> | rc (close)
+   output tokens: per write op W<written> or P ; then S<sink hex> C<sink calls> ;
+                  per read op v<val>:<read> | a<hex>:<read> | p:<read> | c:<read>          *)
+let hex_of_bytes (l : K.n list) =
+  let b = Buffer.create 64 in
+  List.iter (fun x -> Buffer.add_string b (Printf.sprintf "%02x" (Z.to_int (zar_of_n x)))) l;
+  Buffer.contents b
+let bytes_of_hex (h : string) : K.n list =
+  let n = String.length h / 2 in
+  List.init n (fun i -> n_of_zar (Z.of_int (int_of_string ("0x" ^ String.sub h (2 * i) 2))))
+let split_on_semis line =
+  List.map words (String.split_on_char ';' line)
+
+let do_bs line =
+  match split_on_semis line with
+  | ("bs" :: wbuf :: rbuf :: sched :: wfail :: rfail :: _) :: ops ->
+    let out = Buffer.create 256 in
+    let add s = Buffer.add_string out s; Buffer.add_char out ' ' in
+    let wf = Z.of_string wfail in
+    let fail (k : K.n) = (Z.sign wf > 0) && Z.equal (zar_of_n k) wf in
+    let fail_perm (k : K.n) = (Z.sign wf < 0) && Z.geq (zar_of_n k) (Z.neg wf) in
+    let failf k = fail k || fail_perm k in
+    let w = ref (K.new_obs (ns wbuf)) in
+    let wops = List.filter (fun o -> match o with (("wb"|"ws"|"wa"|"wc") :: _) -> true | _ -> false) ops in
+    let rops = List.filter (fun o -> match o with (("rb"|"rs"|"ra"|"rc") :: _) -> true | _ -> false) ops in
+    List.iter (fun o ->
+      let (s', p) = match o with
+        | ["wb"; b] -> K.write_bit failf !w (ns b)
+        | ["ws"; v; c] -> K.write_bits failf !w (ns v) (ns c)
+        | ["wa"; c; h] -> K.write_array failf !w (bytes_of_hex h) (ns c)
+        | ["wa"; c] -> K.write_array failf !w [] (ns c)
+        | ["wc"] -> K.close failf !w
+        | _ -> (!w, true) in
+      w := s';
+      add ((if p then "P" else "W") ^ sz (K.written !w))) wops;
+    let sink = K.o_out !w in
+    add ("S" ^ hex_of_bytes sink);
+    add ("C" ^ sn (K.o_calls !w));
+    let sched = if sched = "-" then [] else List.map ns (String.split_on_char ',' sched) in
+    let rfz = Z.of_string rfail in
+    let src = { K.src_data = sink; K.src_sched = sched; K.src_failat = (if Z.sign rfz > 0 then Some (n_of_zar rfz) else None); K.src_calls = K.N0 } in
+    let r = ref (K.new_ibs (ns rbuf) src) in
+    List.iter (fun o ->
+      let tok = match o with
+        | ["rb"] -> (match K.read_bit !r with (s', K.Val v) -> r := s'; "v" ^ sn v | (s', K.Pan _) -> r := s'; "p")
+        | ["rs"; c] -> (match K.read_bits !r (ns c) with (s', K.Val v) -> r := s'; "v" ^ sn v | (s', K.Pan _) -> r := s'; "p")
+        | ["ra"; c] -> (match K.read_array !r (ns c) with (s', K.Val l) -> r := s'; "a" ^ hex_of_bytes l | (s', K.Pan _) -> r := s'; "p")
+        | ["rc"] -> r := K.iclose !r; "c"
+        | _ -> "?" in
+      add (tok ^ ":" ^ sz (K.bits_read !r))) rops;
+    Buffer.contents out
+  | _ -> "badcase"
+
 let dispatch line =
   match words line with
   | [] -> ""
   | "norm" :: args -> do_norm args
+  | "bs" :: _ -> do_bs line
   | k :: _ -> "unknown " ^ k
 
 let () =
